@@ -1,6 +1,7 @@
 (* Evaluation entry points for C17 cases.  Imports the model only, so the oracle still runs when a proof breaks. *)
 From stdpp Require Import strings gmap sets.
 From CG Require Export Base.Cases Base.Oracle Model.Supergates.
+From CG Require Import Model.Lint.
 Open Scope string_scope.
 
 Inductive case :=
@@ -36,13 +37,22 @@ Definition fill_all (SC : Circuit) (m : list (string * Circuit)) : option Circui
                                           match r.2 with Done => Some r.1 | _ => None end
                              | None => None end) (Some SC) m.
 (* same inputs, same outputs, and for every input valuation both circuits evaluate consistently to the same output values *)
+(* `x` constants are free nodes; a supergate keeps its own copy under another name after fill_blackbox, so they are not
+   enumerated by name: every input valuation is tried with all `x` nodes at 0 and with all of them at 1 *)
+Definition bg (ins : gset string) (b : bool) (a : val) : val := λ n, if bool_decide (n ∈ ins) then a n else b.
 Definition equiv_outputs (c f : circuit) : bool :=
   bool_decide (inputs f = inputs c) && bool_decide (outputs f = outputs c) &&
   closedb f && acyclicb f && closedb c && acyclicb c &&
-  bool_decide (free_nodes c = inputs c) && bool_decide (free_nodes f = inputs f) &&
-  forallb (λ a, let vc := evalc c a in let vf := evalc f a in
+  bool_decide (free_nodes c = inputs c ∪ of_type c (is_ty CX)) && bool_decide (free_nodes f = inputs f ∪ of_type f (is_ty CX)) &&
+  forallb (λ a0, forallb (λ b, let a := bg (inputs c) b a0 in
+                let vc := evalc c a in let vf := evalc f a in
                 consistentb c vc && consistentb f vf && eq_on (elements (outputs c)) vc vf)
+             (if bool_decide (of_type c (is_ty CX) = ∅) then [false] else [false; true]))
           (all_vals (elements (inputs c))).
+(* every input of a supergate is a primary input or a gate of an earlier supergate *)
+Fixpoint produced_ok (Lin earlier : gset string) (sgs : list Circuit) : bool :=
+  match sgs with [] => true | s :: r =>
+    bool_decide (inputs (c_g s) ⊆ Lin ∪ earlier) && produced_ok Lin (earlier ∪ gates_of s) r end.
 
 (* the recorded circuit is a plausible limit_fanin(c, 2): same interface, no gate above 2, original nodes kept, it is c itself
    when c already respects the bound, and it COMPUTES c: same output values on every input valuation ("sub-circuits of the
@@ -60,7 +70,7 @@ Definition holds (k : case) : bool :=
   match k with
   | CList C L obs =>
       limited_ok C L &&
-      match obs with Ok sgs => check_all (c_g (lim C L)) sgs | _ => false end
+      match obs with Ok sgs => check_all (c_g (lim C L)) sgs && produced_ok (inputs (c_g (lim C L))) ∅ sgs | _ => false end
   | CSuper C L obs =>
       limited_ok C L &&
       match obs with
@@ -68,9 +78,10 @@ Definition holds (k : case) : bool :=
           let sgs := m.*2 in let Lg := c_g (lim C L) in
           bool_decide (size (outputs (c_g C)) ≤ 1) &&
           check_shape Lg sgs && check_independent Lg sgs && check_cover Lg sgs &&
+          forallb (λ s, bool_decide (inputs (c_g s) ⊆ inputs Lg ∪ ⋃ (gates_of <$> sgs))) sgs &&
           forallb (λ p, bool_decide (Some p.1 = sgn <$> out_of p.2)) m &&
           bool_decide (dom (c_bbs SC) = list_to_set (m.*1)) &&
-          match fill_all SC m with Some FC => bool_decide (c_bbs FC = ∅) && equiv_outputs (c_g C) (c_g FC) | None => false end
+          match fill_all SC m with Some FC => bool_decide (c_bbs FC = ∅) && lint_cleanb FC && equiv_outputs (c_g C) (c_g FC) | None => false end
       | Raise ValueError => bool_decide (1 < size (outputs (c_g C)))      (* documented: single-output circuits only *)
       | _ => false end
   end.
